@@ -75,8 +75,37 @@ func extractSuiteCases(repo string) ([]suiteCase, error) {
 	return out, nil
 }
 
+var harnessSnap string
+
+// harnessDir returns a private snapshot of /verif/harness taken once per
+// process, so that a run is not disturbed by edits made while it is going.
+func harnessDir() string {
+	if harnessSnap != "" {
+		return harnessSnap
+	}
+	src := filepath.Join(verifDir(), "harness")
+	tmp, err := os.MkdirTemp("", "verif-harness-")
+	if err != nil {
+		return src
+	}
+	ents, _ := os.ReadDir(src)
+	for _, e := range ents {
+		if b, err := os.ReadFile(filepath.Join(src, e.Name())); err == nil {
+			os.WriteFile(filepath.Join(tmp, e.Name()), b, 0o644)
+		}
+	}
+	harnessSnap = tmp
+	return tmp
+}
+
+func cleanupHarnessSnap() {
+	if harnessSnap != "" {
+		os.RemoveAll(harnessSnap)
+	}
+}
+
 func loadProgram() (*engine.Program, error) {
-	ov, err := engine.HarnessOverlay(repoDir(), filepath.Join(verifDir(), "harness"), false)
+	ov, err := engine.HarnessOverlay(repoDir(), harnessDir(), false)
 	if err != nil {
 		return nil, err
 	}
@@ -151,7 +180,7 @@ func cmdSelftest(flags map[string]string) int {
 		fxJob = append(fxJob, i)
 	}
 	fmt.Printf("selftest: engine ran %d/%d pairs in %.1fs (%d steps)\n", len(fixtures), len(cases), time.Since(t0).Seconds(), stats.Steps)
-	rr, err := engine.NativeReplay(repoDir(), filepath.Join(verifDir(), "harness"), fixtures, false, 10*time.Minute)
+	rr, err := engine.NativeReplay(repoDir(), harnessDir(), fixtures, false, 10*time.Minute)
 	if err != nil {
 		fmt.Println("selftest: native replay:", err)
 		return 3
@@ -185,7 +214,7 @@ func cmdReplay(path string, flags map[string]string) int {
 		fmt.Println("replay: bad fixture:", err)
 		return 3
 	}
-	rr, err := engine.NativeReplay(repoDir(), filepath.Join(verifDir(), "harness"), []*engine.Fixture{&fx}, flags["race"] != "", 5*time.Minute)
+	rr, err := engine.NativeReplay(repoDir(), harnessDir(), []*engine.Fixture{&fx}, flags["race"] != "", 5*time.Minute)
 	if err != nil || len(rr) != 1 {
 		fmt.Println("replay: native run failed:", err)
 		return 3
